@@ -38,6 +38,16 @@ def run(ctx):
         ok = core.eval_pred(ctx, "c17_ctor_pred", args)
         core.record_failures(ctx, "C17-constructor", "c17_ctor_pred", ok,
                              lambda m, k=k: {"backend": k, "request": reqs[m][1], "impl": outs[k][m]})
+    # the same strings through encoded=True: the authority is split lazily, on first use; an invalid port must be
+    # rejected by every accessor on every look (the observation reads them one after the other on one object)
+    lreqs = [("observe", [0, [["push", ["enc", r[1][1][0][1][1]]]]]) for r in reqs]
+    louts = core.check_suite(ctx, "C17-constructor-encoded", lreqs, split=True, exhaustive=True,
+                             nontrivial=lambda rs: {repr(a) for _, a in rs})
+    for k in [k for k in louts if k != "model"]:
+        args = [" ".join([enc(sc), enc(pt), louts[k][i]]) for i, (sc, pt) in enumerate(meta)]
+        ok = core.eval_pred(ctx, "c17_lazy_pred", args)
+        core.record_failures(ctx, "C17-constructor-encoded", "c17_lazy_pred", ok,
+                             lambda m, k=k: {"backend": k, "request": lreqs[m][1], "impl": louts[k][m]})
     # with_port and build routes
     reqs, meta = [], []
     bases = []
